@@ -34,7 +34,7 @@ META = {
             "both sides inside the message; distinct by the full case description",
     "assumptions": ["SMPI_PARTIAL_SHARED_MALLOC is called within its asserted contract: >=1 shared region, start<stop<=size, "
                     "stop<next start (adjacent regions are rejected by an xbt_assert, so they are not generated)"],
-    "ready": False,
+    "ready": True,
 }
 
 # Directed cases: always run.  D1-D3 are minimal witnesses of the block-begins-before-the-message defect.
@@ -174,7 +174,7 @@ def execute(ctx, exe, tmpd, tag, conf, cases, timeout=600):
 
 def run(ctx):
     exe = build.smpicc("mpi/pshared.c", "hooks")
-    nruns = ctx.size(40, 1500)
+    nruns = ctx.size(40, 6000)
     per = 14
     tmpd = tempfile.mkdtemp(prefix="verif-C35-")
     try:
